@@ -39,12 +39,17 @@ def annotations(ctx, s):
     ctx.rule("A1", "the type the converter looks up for an overriding column is supported: scalar rules declare float/int/bool/numpy.datetime64, whole-column rules and group ids numpy.ndarray[<one of them>]; the defining module does not postpone annotations")
     itf = repo.module("interface.py")
     conv = find_function(itf, "_convert_data_to_correct_types", "primary anchor")
-    uses_ann = any(isinstance(n, ast.Subscript) and isinstance(n.slice, ast.Constant) and n.slice.value == "return" and "__annotations__" in ast.unparse(n.value) for n in ast.walk(conv))
-    uses_args = any(isinstance(n, ast.Subscript) and isinstance(n.value, ast.Call) and ast.unparse(n.value.func) in ("get_args", "typing.get_args") and ast.unparse(n.slice) == "0" for n in ast.walk(conv))
+    from staticlib.guards import scope_functions
+
+    cscope = scope_functions(itf, conv)
+    uses_ann = any(isinstance(n, ast.Subscript) and isinstance(n.slice, ast.Constant) and n.slice.value == "return" and "__annotations__" in ast.unparse(n.value) for f_ in cscope for n in ast.walk(f_))
+    uses_args = any(isinstance(n, ast.Subscript) and isinstance(n.value, ast.Call) and ast.unparse(n.value.func) in ("get_args", "typing.get_args") and ast.unparse(n.slice) == "0" for f_ in cscope for n in ast.walk(f_))
     if not (uses_ann and uses_args):
         raise AnalysisError("_convert_data_to_correct_types no longer reads the return annotation (directly, or its first type argument) the modelled way; A1 needs a re-read")
     gt = repo.module("gettsim_typing.py")
-    sup = {t for t in ("float", "int", "bool", "datetime64") if f"internal_type == {t}" in ast.unparse(gt.functions.get("convert_series_to_internal_type", ast.parse("0"))) or f"internal_type == np.{t}" in ast.unparse(gt.functions.get("convert_series_to_internal_type", ast.parse("0")))}
+    gscope = scope_functions(gt, find_function(gt, "convert_series_to_internal_type", "primary anchor"))
+    gtxt = "\n".join(ast.unparse(f_) for f_ in gscope)
+    sup = {t for t in ("float", "int", "bool", "datetime64") if f"internal_type == {t}" in gtxt or f"internal_type == np.{t}" in gtxt or f"internal_type == numpy.{t}" in gtxt}
     if sup != {"float", "int", "bool", "datetime64"}:
         raise AnalysisError(f"converter now supports {sorted(sup)}; A1's table of supported types needs a re-read")
     for m in repo.policy_modules:
